@@ -661,3 +661,311 @@ Proof. intros Hwf Hr. exact (ctext_reads c d r Hwf Hr). Qed.
 (* truncation: a parsed value is a tight text on its own *)
 Lemma pval_ctext_tight f d s c r : pval f d s = Some (c, r) -> tight_at d (ctext c []) = true.
 Proof. intros H. exact (PV_tight _ _ _ (ctext_PV d c [] (pval_wf _ _ _ _ _ H) I)). Qed.
+
+(* ------------------------------------------------------------------------- *)
+(* Part 5: tree transformers; compaction *)
+
+Section Map.
+  Variables strf wsf : bytes -> bytes.
+
+  Fixpoint cmap (c : cst) : cst :=
+    match c with
+    | CStr b => CStr (strf b)
+    | CArr w es => CArr (wsf w) (map (fun e => (wsf (fst (fst e)), cmap (snd (fst e)), wsf (snd e))) es)
+    | CObj w ms =>
+      CObj (wsf w) (map (fun m => ((wsf (fst (fst (fst m))), strf (snd (fst (fst m))), wsf (snd (fst m))),
+                                   (wsf (fst (fst (snd m))), cmap (snd (fst (snd m))), wsf (snd (snd m))))) ms)
+    | _ => c
+    end.
+
+  Definition emap (e : bytes * cst * bytes) : bytes * cst * bytes := (wsf (fst (fst e)), cmap (snd (fst e)), wsf (snd e)).
+  Definition mmap (m : (bytes * bytes * bytes) * (bytes * cst * bytes)) : (bytes * bytes * bytes) * (bytes * cst * bytes) :=
+    ((wsf (fst (fst (fst m))), strf (snd (fst (fst m))), wsf (snd (fst m))),
+     (wsf (fst (fst (snd m))), cmap (snd (fst (snd m))), wsf (snd (snd m)))).
+
+  Lemma cmap_arr w es : cmap (CArr w es) = CArr (wsf w) (map emap es).
+  Proof. reflexivity. Qed.
+  Lemma cmap_obj w ms : cmap (CObj w ms) = CObj (wsf w) (map mmap ms).
+  Proof. reflexivity. Qed.
+
+  Lemma et_map : forall l acc,
+    Forall (fun e : bytes * cst * bytes => forall acc, cprint strf wsf (snd (fst e)) acc = cp (cmap (snd (fst e))) acc) l ->
+    elems_text wsf (cprint strf wsf) l acc = et (map emap l) acc.
+  Proof.
+    intros l acc H. induction H as [|[[w1 c1] wa1] l Hc _ IHl]; [reflexivity|].
+    cbn [map elems_text emap fst snd] in *. rewrite Hc. f_equal. f_equal. f_equal.
+    destruct l as [|e1 l1]; [reflexivity|]. cbn [map]. f_equal. exact IHl.
+  Qed.
+
+  Lemma mt_map : forall l acc,
+    Forall (fun m : (bytes * bytes * bytes) * (bytes * cst * bytes) =>
+              forall acc, cprint strf wsf (snd (fst (snd m))) acc = cp (cmap (snd (fst (snd m)))) acc) l ->
+    mems_text strf wsf (cprint strf wsf) l acc = mt (map mmap l) acc.
+  Proof.
+    intros l acc H. induction H as [|[[[wk k] wc] [[wv c1] wa1]] l Hc _ IHl]; [reflexivity|].
+    cbn [map mems_text mmap fst snd] in *. rewrite Hc. do 9 f_equal.
+    destruct l as [|e1 l1]; [reflexivity|]. cbn [map]. f_equal. exact IHl.
+  Qed.
+
+  (* a printer is the exact text of the transformed tree *)
+  Lemma cprint_cmap : forall c acc, cprint strf wsf c acc = ctext (cmap c) acc.
+  Proof.
+    unfold ctext. induction c using cst_ind'; intros acc; try reflexivity.
+    - rewrite cmap_arr. cbn [cprint]. f_equal. destruct es as [|e0 es0]; [reflexivity|].
+      rewrite (et_map (e0 :: es0) acc H). reflexivity.
+    - rewrite cmap_obj. cbn [cprint]. f_equal. destruct ms as [|m0 ms0]; [reflexivity|].
+      rewrite (mt_map (m0 :: ms0) acc H). reflexivity.
+  Qed.
+End Map.
+
+Section MapWf.
+  Variables strf wsf : bytes -> bytes.
+  Hypothesis Hs : forall b, body_okb b = true -> body_okb (strf b) = true.
+  Hypothesis Hw : forall w, all_ws w = true -> all_ws (wsf w) = true.
+  Hypothesis Hnil : wsf [] = [].
+
+  Lemma cwf_cmap : forall c d, cwf d c = true -> cwf d (cmap strf wsf c) = true.
+  Proof.
+    induction c using cst_ind'; intros d Hwf; try exact Hwf.
+    - cbn [cmap cwf] in *. apply Hs. exact Hwf.
+    - rewrite cmap_arr, cwf_arr. rewrite cwf_arr in Hwf.
+      apply andb_true_iff in Hwf as [Hwf Hes]. apply andb_true_iff in Hwf as [Hwf Hw0]. apply andb_true_iff in Hwf as [Hd Hww].
+      rewrite Hd, (Hw _ Hww). cbn [andb].
+      assert (HF : forallb (elem_wf (N.succ d)) (map (emap strf wsf) es) = true).
+      { clear Hw0. induction H as [|e l He _ IHl]; [reflexivity|]. cbn [forallb map] in *. apply andb_true_iff in Hes as [He1 Hes].
+        rewrite (IHl Hes), andb_true_r. unfold elem_wf, emap in *. cbn [fst snd].
+        apply andb_true_iff in He1 as [He1 Hc]. apply andb_true_iff in He1 as [Ha Hb]. rewrite (Hw _ Ha), (He _ Hb), (Hw _ Hc). reflexivity. }
+      rewrite HF, andb_true_r. destruct es; [reflexivity|]. cbn [map]. apply beq_eq in Hw0. subst w. rewrite Hnil. reflexivity.
+    - rewrite cmap_obj, cwf_obj. rewrite cwf_obj in Hwf.
+      apply andb_true_iff in Hwf as [Hwf Hms]. apply andb_true_iff in Hwf as [Hwf Hw0]. apply andb_true_iff in Hwf as [Hd Hww].
+      rewrite Hd, (Hw _ Hww). cbn [andb].
+      assert (HF : forallb (mem_wf (N.succ d)) (map (mmap strf wsf) ms) = true).
+      { clear Hw0. induction H as [|e l He _ IHl]; [reflexivity|]. cbn [forallb map] in *. apply andb_true_iff in Hms as [He1 Hms].
+        rewrite (IHl Hms), andb_true_r. unfold mem_wf, mmap in *. cbn [fst snd].
+        apply andb_true_iff in He1 as [He1 H6]. apply andb_true_iff in He1 as [He1 H5]. apply andb_true_iff in He1 as [He1 H4].
+        apply andb_true_iff in He1 as [He1 H3]. apply andb_true_iff in He1 as [H1 H2].
+        rewrite (Hw _ H1), (Hs _ H2), (Hw _ H3), (Hw _ H4), (He _ H5), (Hw _ H6). reflexivity. }
+      rewrite HF, andb_true_r. destruct ms; [reflexivity|]. cbn [map]. apply beq_eq in Hw0. subst w. rewrite Hnil. reflexivity.
+  Qed.
+
+  Hypothesis Hu : forall b, body_okb b = true -> unquote (strf b) = unquote b.
+
+  (* the transformed tree denotes the same value *)
+  Lemma cst_json_cmap : forall c d, cwf d c = true -> cst_json (cmap strf wsf c) = cst_json c.
+  Proof.
+    induction c using cst_ind'; intros d Hwf; try reflexivity.
+    - cbn [cmap cst_json cwf] in *. rewrite (Hu _ Hwf). reflexivity.
+    - rewrite cmap_arr. rewrite cwf_arr in Hwf. apply andb_true_iff in Hwf as [_ Hes]. cbn [cst_json]. f_equal.
+      induction H as [|e l He _ IHl]; [reflexivity|]. cbn [forallb map] in *. apply andb_true_iff in Hes as [He1 Hes].
+      rewrite (IHl Hes). f_equal. unfold elem_wf in He1. apply andb_true_iff in He1 as [He1 _]. apply andb_true_iff in He1 as [_ Hb].
+      unfold emap. cbn [fst snd]. exact (He _ Hb).
+    - rewrite cmap_obj. rewrite cwf_obj in Hwf. apply andb_true_iff in Hwf as [_ Hms]. cbn [cst_json]. f_equal.
+      induction H as [|e l He _ IHl]; [reflexivity|]. cbn [forallb map] in *. apply andb_true_iff in Hms as [He1 Hms].
+      rewrite (IHl Hms). f_equal. unfold mem_wf in He1.
+      apply andb_true_iff in He1 as [He1 _]. apply andb_true_iff in He1 as [He1 H5]. apply andb_true_iff in He1 as [He1 _].
+      apply andb_true_iff in He1 as [He1 _]. apply andb_true_iff in He1 as [_ H2].
+      unfold mmap. cbn [fst snd]. rewrite (Hu _ H2), (He _ H5). reflexivity.
+  Qed.
+End MapWf.
+
+(* ---- html_esc keeps a string body a string body ---- *)
+
+Definition special (c : N) : bool := (c =? 60) || (c =? 62) || (c =? 38).
+
+Lemma html_esc_cons c r : html_esc (c :: r) =
+  if special c then u00 c ++ html_esc r
+  else if c =? 226 then
+    match r with
+    | c2 :: c3 :: r3 => if (c2 =? 128) && ((c3 =? 168) || (c3 =? 169)) then esc_202x c3 ++ html_esc r3 else c :: html_esc r
+    | _ => c :: html_esc r
+    end
+  else c :: html_esc r.
+Proof. reflexivity. Qed.
+
+Lemma html_esc_plain c r : special c = false -> (c =? 226) = false -> html_esc (c :: r) = c :: html_esc r.
+Proof. intros H1 H2. rewrite html_esc_cons, H1, H2. reflexivity. Qed.
+
+Lemma is_hex_plain h : is_hex h = true -> special h = false /\ (h =? 226) = false.
+Proof.
+  intros H. assert (Hh : h <> 60 /\ h <> 62 /\ h <> 38 /\ h <> 226).
+  { unfold is_hex, is_digit in H. apply orb_true_iff in H as [H|H]; [apply orb_true_iff in H as [H|H]|];
+      apply andb_true_iff in H as [A B]; apply N.leb_le in A, B; repeat split; lia. }
+  destruct Hh as (A & B & C & D). unfold special.
+  apply N.eqb_neq in A, B, C, D. rewrite A, B, C, D. split; reflexivity.
+Qed.
+
+Lemma simple_plain e : eclass_of e = ESimple -> special e = false /\ (e =? 226) = false.
+Proof.
+  unfold eclass_of. destruct ((e =? 98) || (e =? 102) || (e =? 110) || (e =? 114) || (e =? 116) || (e =? 92) || (e =? 47) || (e =? 34)) eqn:E;
+    [|destruct (e =? 117); discriminate].
+  intros _. repeat (apply orb_true_iff in E as [E|E]); apply N.eqb_eq in E; subst e; split; reflexivity.
+Qed.
+
+Lemma sback_92 c : sclass_of c = SBack -> c = 92.
+Proof.
+  unfold sclass_of. destruct (c =? 34); [discriminate|]. destruct (c =? 92) eqn:E; [intros _; apply N.eqb_eq; exact E|].
+  destruct (c <? 32); discriminate.
+Qed.
+
+Lemma special_lt c : special c = true -> c < 128.
+Proof. unfold special. intros H. repeat (apply orb_true_iff in H as [H|H]); apply N.eqb_eq in H; lia. Qed.
+
+Lemma html_esc_body_len m : forall s b r, (length s <= m)%nat -> pstr s = Some (b, r) ->
+  forall r', pstr (html_esc b ++ 34 :: r') = Some (html_esc b, r').
+Proof.
+  induction m as [|m IH]; intros s b r Hl H r'.
+  - destruct s; [discriminate | cbn in Hl; lia].
+  - destruct s as [|c s']; [discriminate|]. cbn [length] in Hl. cbn [pstr] in H.
+    destruct (sclass_of c) eqn:Ec.
+    + injection H as <- <-. reflexivity.
+    + apply sback_92 in Ec. subst c. destruct s' as [|e r1]; [discriminate|]. cbn [length] in Hl.
+      destruct (eclass_of e) eqn:Ee.
+      * destruct (pstr r1) as [[b' r0]|] eqn:Ep; [|discriminate]. injection H as <- <-.
+        destruct (simple_plain e Ee) as [A B].
+        rewrite (html_esc_plain 92) by reflexivity. rewrite (html_esc_plain e _ A B). cbn [app].
+        rewrite (pstr_simple e _ Ee). rewrite (IH r1 b' r0 ltac:(lia) Ep r'). reflexivity.
+      * destruct r1 as [|h1 [|h2 [|h3 [|h4 r2]]]]; try discriminate. cbn [length] in Hl.
+        destruct (is_hex h1 && is_hex h2 && is_hex h3 && is_hex h4) eqn:Eh; [|discriminate].
+        destruct (pstr r2) as [[b' r0]|] eqn:Ep; [|discriminate]. injection H as <- <-.
+        assert (e = 117) as -> by (unfold eclass_of in Ee; destruct (_ || _); [discriminate|]; destruct (e =? 117) eqn:E; [apply N.eqb_eq; exact E | discriminate]).
+        pose proof Eh as Eh'. apply andb_true_iff in Eh' as [Eh' H4]. apply andb_true_iff in Eh' as [Eh' H3]. apply andb_true_iff in Eh' as [H1 H2].
+        destruct (is_hex_plain _ H1) as [A1 B1]. destruct (is_hex_plain _ H2) as [A2 B2].
+        destruct (is_hex_plain _ H3) as [A3 B3]. destruct (is_hex_plain _ H4) as [A4 B4].
+        rewrite (html_esc_plain 92) by reflexivity. rewrite (html_esc_plain 117) by reflexivity.
+        rewrite (html_esc_plain h1 _ A1 B1), (html_esc_plain h2 _ A2 B2), (html_esc_plain h3 _ A3 B3), (html_esc_plain h4 _ A4 B4).
+        cbn [app]. rewrite (pstr_u _ _ _ _ _ Eh). rewrite (IH r2 b' r0 ltac:(lia) Ep r'). reflexivity.
+      * discriminate.
+    + discriminate.
+    + destruct (pstr s') as [[b' r0]|] eqn:Ep; [|discriminate]. injection H as <- <-.
+      pose proof (IH s' b' r0 ltac:(lia) Ep r') as IHb.
+      assert (Hgen : pstr ((c :: html_esc b') ++ 34 :: r') = Some (c :: html_esc b', r')).
+      { cbn [app]. rewrite (pstr_plain c _ Ec), IHb. reflexivity. }
+      rewrite html_esc_cons. destruct (special c) eqn:Es.
+      * rewrite <- app_assoc. rewrite pstr_u00 by (apply special_lt in Es; lia). rewrite IHb. reflexivity.
+      * destruct (c =? 226) eqn:E226; [|exact Hgen].
+        destruct b' as [|c2 [|c3 r3]]; try exact Hgen.
+        destruct ((c2 =? 128) && ((c3 =? 168) || (c3 =? 169))) eqn:Epat; [|exact Hgen].
+        apply andb_true_iff in Epat as [E2 E3]. apply N.eqb_eq in E2. subst c2.
+        assert (H3 : c3 = 168 \/ c3 = 169) by (apply orb_true_iff in E3 as [E3|E3]; apply N.eqb_eq in E3; auto).
+        pose proof (proj1 (pstr_props _ _ _ Ep)) as Hs'. rewrite Hs' in Ep. cbn [app] in Ep.
+        rewrite (pstr_plain 128) in Ep by reflexivity.
+        rewrite (pstr_plain c3) in Ep by (destruct H3 as [-> | ->]; reflexivity).
+        destruct (pstr (r3 ++ 34 :: r0)) as [[b3 r3']|] eqn:Ep3; [|discriminate]. injection Ep as <- <-.
+        assert (Hl3 : (length (b3 ++ (34 :: r3')%N) <= m)%nat).
+        { rewrite Hs' in Hl. cbn [app length] in Hl. lia. }
+        rewrite <- app_assoc. unfold esc_202x. cbn [app]. rewrite pstr_u.
+        -- rewrite (IH _ b3 r3' Hl3 Ep3 r'). reflexivity.
+        -- assert (Hm : c3 mod 16 < 16) by (apply N.mod_lt; lia). rewrite (is_hex_hexdig _ Hm). reflexivity.
+Qed.
+
+Lemma html_esc_body_ok b : body_okb b = true -> body_okb (html_esc b) = true.
+Proof.
+  intros H. apply body_okb_spec in H. apply body_okb_spec.
+  exact (html_esc_body_len (length (b ++ [34])) _ _ _ (le_n _) H []).
+Qed.
+
+Definition cpt (c : cst) : cst := cmap html_esc (fun _ => []) c.
+
+Lemma cwf_cpt d c : cwf d c = true -> cwf d (cpt c) = true.
+Proof. apply cwf_cmap; [exact html_esc_body_ok | reflexivity | reflexivity]. Qed.
+
+(* json.Compact / json.Marshal(RawMessage): the compacted text is the exact text of the compacted
+   tree, which the parser reads back; in particular it is one tight value *)
+Lemma compact_inv p q : compact p = Some q ->
+  exists w c w1, parse_doc p = Some (w, c, w1) /\ cwf 0 c = true /\ q = ctext (cpt c) [] /\
+                 parse_doc q = Some ([], cpt c, []).
+Proof.
+  unfold compact. destruct (parse_doc p) as [[[w c] w1]|] eqn:E; [|discriminate]. intros H; injection H as <-.
+  exists w, c, w1. pose proof (parse_doc_wf _ _ _ _ E) as Hwf. split; [reflexivity|]. split; [exact Hwf|].
+  unfold ccompact_html. rewrite cprint_cmap. split; [reflexivity|].
+  apply parse_doc_PV. apply ctext_PV; [apply cwf_cpt; exact Hwf | exact I].
+Qed.
+
+Theorem compact_tight p q : compact p = Some q -> tight_at 0 q = true.
+Proof.
+  intros H. destruct (compact_inv _ _ H) as (w & c & w1 & _ & Hwf & -> & _).
+  exact (PV_tight _ _ _ (ctext_PV 0 _ [] (cwf_cpt _ _ Hwf) I)).
+Qed.
+
+Lemma tight_valid s : tight_at 0 s = true -> valid s = true.
+Proof. intros H. destruct (tight_PV _ _ H) as [c Hc]. unfold valid. rewrite (parse_doc_PV _ _ Hc). reflexivity. Qed.
+
+Theorem compact_valid p q : compact p = Some q -> valid q = true.
+Proof. intros H. exact (tight_valid _ (compact_tight _ _ H)). Qed.
+
+(* ------------------------------------------------------------------------- *)
+(* Part 6: nesting depth *)
+
+Fixpoint cdepth (c : cst) : N :=
+  match c with
+  | CArr _ es => N.succ (fold_right (fun e a => N.max (cdepth (snd (fst e))) a) 0 es)
+  | CObj _ ms => N.succ (fold_right (fun m a => N.max (cdepth (snd (fst (snd m)))) a) 0 ms)
+  | _ => 0
+  end.
+
+(* the number of nested containers of a JSON text (0 for a scalar, and for a text that is not JSON) *)
+Definition nest (s : bytes) : N := match parse_doc s with Some (_, c, _) => cdepth c | None => 0 end.
+
+Lemma cwf_shift : forall c d d', cwf d c = true -> cdepth c + d' <= max_depth -> cwf d' c = true.
+Proof.
+  induction c using cst_ind'; intros d d' Hwf Hd; try exact Hwf.
+  - rewrite cwf_arr. rewrite cwf_arr in Hwf. cbn [cdepth] in Hd.
+    apply andb_true_iff in Hwf as [Hwf Hes]. apply andb_true_iff in Hwf as [Hwf Hw0]. apply andb_true_iff in Hwf as [_ Hww].
+    rewrite Hww, Hw0. replace (d' <? max_depth) with true by (symmetry; apply N.ltb_lt; lia). cbn [andb].
+    clear Hw0. induction H as [|e l He _ IHl]; [reflexivity|]. cbn [forallb fold_right] in *.
+    apply andb_true_iff in Hes as [He1 Hes]. rewrite IHl; [|exact Hes | lia]. rewrite andb_true_r.
+    unfold elem_wf in *. apply andb_true_iff in He1 as [He1 Hc]. apply andb_true_iff in He1 as [Ha Hb].
+    rewrite Ha, Hc, (He (N.succ d) (N.succ d') Hb); [reflexivity | lia].
+  - rewrite cwf_obj. rewrite cwf_obj in Hwf. cbn [cdepth] in Hd.
+    apply andb_true_iff in Hwf as [Hwf Hms]. apply andb_true_iff in Hwf as [Hwf Hw0]. apply andb_true_iff in Hwf as [_ Hww].
+    rewrite Hww, Hw0. replace (d' <? max_depth) with true by (symmetry; apply N.ltb_lt; lia). cbn [andb].
+    clear Hw0. induction H as [|e l He _ IHl]; [reflexivity|]. cbn [forallb fold_right] in *.
+    apply andb_true_iff in Hms as [He1 Hms]. rewrite IHl; [|exact Hms | lia]. rewrite andb_true_r.
+    unfold mem_wf in *.
+    apply andb_true_iff in He1 as [He1 H6]. apply andb_true_iff in He1 as [He1 H5]. apply andb_true_iff in He1 as [He1 H4].
+    apply andb_true_iff in He1 as [He1 H3]. apply andb_true_iff in He1 as [H1 H2].
+    rewrite H1, H2, H3, H4, H6, (He (N.succ d) (N.succ d') H5); [reflexivity | lia].
+Qed.
+
+Lemma tight_tree s : tight_at 0 s = true -> exists c, parse_doc s = Some ([], c, []) /\ s = ctext c [] /\ cwf 0 c = true.
+Proof.
+  intros H. destruct (tight_PV _ _ H) as [c Hc]. exists c. split; [exact (parse_doc_PV _ _ Hc)|].
+  split; [exact (PV_text _ _ _ _ Hc)|]. exact (pval_wf _ _ _ _ _ (PV_value_at _ _ _ _ Hc)).
+Qed.
+
+(* a tight value nested at most n deep is valid d containers down as long as n + d <= 10000 *)
+Theorem tight_shift s d : tight_at 0 s = true -> nest s + d <= max_depth -> tight_at d s = true.
+Proof.
+  intros H Hn. destruct (tight_tree _ H) as (c & Hp & Hs & Hwf). unfold nest in Hn. rewrite Hp in Hn.
+  rewrite Hs. exact (PV_tight _ _ _ (ctext_PV d c [] (cwf_shift c 0 d Hwf Hn) I)).
+Qed.
+
+Lemma cwf_depth_bound : forall c d, cwf d c = true -> cdepth c = 0 \/ cdepth c + d <= max_depth.
+Proof.
+  induction c using cst_ind'; intros d Hwf; cbn [cdepth]; try (left; reflexivity); right.
+  - rewrite cwf_arr in Hwf. apply andb_true_iff in Hwf as [Hwf Hes]. apply andb_true_iff in Hwf as [Hwf _]. apply andb_true_iff in Hwf as [Hd _].
+    apply N.ltb_lt in Hd.
+    assert (fold_right (fun e a => N.max (cdepth (snd (fst e))) a) 0 es + N.succ d <= max_depth); [|lia].
+    induction H as [|e l He _ IHl]; cbn [fold_right forallb] in *; [lia|]. apply andb_true_iff in Hes as [He1 Hes].
+    unfold elem_wf in He1. apply andb_true_iff in He1 as [He1 _]. apply andb_true_iff in He1 as [_ Hb].
+    specialize (He _ Hb). specialize (IHl Hes). lia.
+  - rewrite cwf_obj in Hwf. apply andb_true_iff in Hwf as [Hwf Hms]. apply andb_true_iff in Hwf as [Hwf _]. apply andb_true_iff in Hwf as [Hd _].
+    apply N.ltb_lt in Hd.
+    assert (fold_right (fun m a => N.max (cdepth (snd (fst (snd m)))) a) 0 ms + N.succ d <= max_depth); [|lia].
+    induction H as [|e l He _ IHl]; cbn [fold_right forallb] in *; [lia|]. apply andb_true_iff in Hms as [He1 Hms].
+    unfold mem_wf in He1. apply andb_true_iff in He1 as [He1 _]. apply andb_true_iff in He1 as [_ H5].
+    specialize (He _ H5). specialize (IHl Hms). lia.
+Qed.
+
+(* conversely, a container that is valid d containers down is nested at most 10000 - d deep *)
+Theorem tight_nest s d : tight_at d s = true -> nest s = 0 \/ nest s + d <= max_depth.
+Proof.
+  intros H. destruct (tight_PV _ _ H) as [c Hc].
+  pose proof (parse_doc_PV _ _ (PV_depth _ 0 _ _ _ Hc (N.le_0_l d))) as Hp. unfold nest. rewrite Hp.
+  exact (cwf_depth_bound c d (pval_wf _ _ _ _ _ (PV_value_at _ _ _ _ Hc))).
+Qed.
+
+Example tight_shift_nonvacuous :
+  tight_at 0 [91; 91; 93; 93] = true /\ nest [91; 91; 93; 93] = 2 /\ tight_at 9998 [91; 91; 93; 93] = true /\
+  tight_at 9999 [91; 91; 93; 93] = false.
+Proof. repeat split; vm_compute; reflexivity. Qed.
